@@ -336,6 +336,8 @@ def callback_items(name, info, flavour):
             R('R4.keys_matching_async', r'\b__CACHE_\w+ \. iter \( \) \. filter \( \| (@ID@) \| (@ID@) \( \1 \. key \( \) \. as_str \( \) \) \) \. map \( \| (@ID@) \| \3 \. key \( \) \. clone \( \) \) \. collect \( \)',
               r'keys_matching(&*cache_static, \2)', 'DashMap iter().filter(pred).map(key.clone).collect() -> keys_matching (assumed contract)'),
             R('R1.dashmap_static', r'\b__CACHE_\w+ \. (remove|clear) \(', r'cache_static.\1(', 'DashMap static -> HashMap (R1)'),
+            R('R4.retain_in', r'(@ID@) \. retain \( \| (@ID@) \| (@ID@) \. contains_key \( \2 \) \)', r'vd_retain_in(&mut *\1, &*\3)',
+              'retain(|k| m.contains_key(k)) -> keep exactly the stored keys, in order (std adapter, assumed contract)'),
             R('R4.position_ref', r'(@ID@) \. iter \( \) \. position \( \| (@ID@) \| \2 == (@ID@) \)', r'vd_position_str(&*\1, \3)', 'iter().position(|k| k == key) -> first index (assumed contract)'),
         ]
         from extract import gen as G
@@ -349,10 +351,10 @@ def callback_items(name, info, flavour):
             sig = sig.replace('CHECKFN', pn)
             M0, M1, Q0, Q1 = 'old(cache_static)@', 'final(cache_static)@', 'old(order_static)@', 'final(order_static)@'
             ens = [
-                ('post_wf', ['C13', 'C04'], 'wf(%s, %s)' % (M1, Q1)),
+                ('post_wf', ['C13', 'C04', 'C05'], 'wf(%s, %s)' % (M1, Q1)),
                 ('removes_exactly_matching', ['C13'], 'forall|k: String| #[trigger] %s.contains_key(k) <==> (%s.contains_key(k) && !pred_holds(*%s, k))' % (M1, M0, pn)),
                 ('survivors_untouched', ['C13', 'C01'], 'forall|k: String| #[trigger] %s.contains_key(k) ==> %s[k] == %s[k]' % (M1, M1, M0)),
-                ('queue_order_preserved', ['C13', 'C07'], 'exists|ks: Seq<String>| ks.no_duplicates() && (forall|k: String| #[trigger] ks.contains(k) <==> (%s.contains_key(k) && pred_holds(*%s, k))) && %s == rm_seq(%s, ks)' % (M0, pn, Q1, Q0)),
+                ('queue_order_preserved', ['C13', 'C07', 'C08'], 'exists|ks: Seq<String>| ks.no_duplicates() && (forall|k: String| #[trigger] ks.contains(k) <==> (%s.contains_key(k) && pred_holds(*%s, k))) && %s == rm_seq(%s, ks)' % (M0, pn, Q1, Q0)),
             ]
             loops = {0: dict(iter='it', invariant=[
                 ('wf', 'wf(cache_static@, order_write@)' if flavour == 'async' else 'wf(map_write@, order_write@)'),
@@ -369,7 +371,7 @@ def callback_items(name, info, flavour):
         else:
             sig = 'fn cb_clear_%s(cache_static: &mut HashMap<String, %s>, order_static: &mut VecDeque<String>) ' % (name, entry)
             ens = [('empties_store_and_queue', ['C12'], 'final(cache_static)@.len() == 0 && final(order_static)@.len() == 0 && final(cache_static)@.dom() == Set::<String>::empty()'),
-                   ('post_wf', ['C12', 'C04'], 'wf(final(cache_static)@, final(order_static)@)')]
+                   ('post_wf', ['C12', 'C04', 'C05'], 'wf(final(cache_static)@, final(order_static)@)')]
             items.append(dict(kind='fn', name='cb_clear_' + name, label='callback::clear::' + name, sig_text=sig, body_text=body, src_line=cb['line'],
                               src_file='macro-expansion of fixtures/src/lib.rs', ensures=ens, props=['C12']))
     return items
